@@ -61,3 +61,15 @@ Proof.
   destruct H as (sg' & E & _ & Harr). exists sg'. split; assumption.
 Qed.
 Print Assumptions C09_source_paginate_pages.
+
+(* ---- the token text, translated (GenHelpers2.v: build_pagination_token, int_to_base64, base64_to_int; GenHelpers3.v:
+   parse_pagination_token): for EVERY prefix index and path, the token the translated builder writes parses back, with the
+   translated parser, to the same pair; and the translated parser IS the parse_token the translated requests above use. *)
+From Traph Require GenHelpers2 GenHelpers3 GenHelpers3Facts.
+Theorem C09_source_token_roundtrip : forall i p,
+  GenHelpers3.py_parse_pagination_token (GenHelpers2.py_build_pagination_token i p) = Some (i, p).
+Proof. exact GenHelpers3Facts.py_token_roundtrip. Qed.
+Theorem C09_source_parse_token : forall t, GenHelpers3.py_parse_pagination_token t = Helpers.parse_token t.
+Proof. exact GenHelpers3Facts.py_parse_pagination_token_eq. Qed.
+Print Assumptions C09_source_token_roundtrip.
+Print Assumptions C09_source_parse_token.
